@@ -12,10 +12,16 @@
 
   The AST walk is a parameter (each file comes with all its import statements); the directory walk is taken from
   `ScanHyps` (property C04), whose decidable form is `scanCheck`.
+
+  Last section (`…_tree`): `ScanHyps` is discharged by the C04 walk theorems from the Bool-valued tree predicate
+  `treeWFFor` (Bridge/ScanTree.lean), so the graph-level statements hold for every well-formed directory tree; since
+  `treeWFFor` forbids a relevant `x.py` next to a directory `x`, the exception disappears there.
 -/
 import Bridge.ScanAbs
+import Bridge.ScanTree
 import PtaProofs.Lemmas.ScanStmt
 import PtaProofs.Lemmas.ScanImports
+import PtaProofs.Lemmas.ScanCompose
 namespace Pta.C02
 open Pta PtaSpec
 
@@ -215,5 +221,107 @@ theorem collision_counterexample :
       some [] ∧
     ScanImports.noFileParent "r".toList (sentriesOf (fun _ _ => false) "/x/r".toList exCollision exOpts) [] = false := by
   decide
+
+/-! ### graph level on directory trees: the walk hypotheses discharged by C04
+
+  Listing convention: `entries` lists the paths below the root directory (no entry for the root itself, as in C04);
+  the specification sees `toSEntries … entries`, i.e. the root directory and the entries. `ScanHyps` holds for the
+  listing `rootEntry :: entries` (the harness sends the root as an entry with `rel = []`), and the model ignores a
+  listed root (`C04.listed_root_ignored`), so the conclusions are about `generateGraph … entries`. -/
+
+section tree
+variable (mt : Str → Str → Bool) (base root : Str) (mp : List Str) (entries : List Entry) (o : ScanOptions)
+  (hwf : treeWFFor (isExcluded mt o.exclusions) base mp entries = true) (hmp : mpOK entries mp = true)
+  (hroot : compWF root = true)
+  (hxx : o.excludeExternal = true) (hlim : o.levelLimit = none) (hext : o.externalExclusions.isEmpty = true)
+  (hst : ∀ e ∈ entries, ∀ st ∈ e.stmts, stmtOK (toSStmt st) = true)
+include hwf hmp hroot hxx hlim hext hst
+
+/-- everything C02 takes from the directory walk follows from C04: a well-formed tree (as far as the scan can see
+    it), `module_path` the root or a listed directory, a well-formed root name (the components of `module_path` are
+    then well-formed too, being names of relevant directories), the default options, and parser-producible statements -/
+theorem scanHyps_of_tree : ScanHyps mt base root mp (rootEntry :: entries) o :=
+  ScanCompose.scanHyps_of_tree hwf hmp hroot hxx hlim hext hst
+
+omit hmp hroot hxx hlim hext hst in
+/-- on such a tree no surviving file's module is a strict ancestor of a surviving entry's module -/
+theorem noFileParent_tree :
+    ScanImports.noFileParent root (toSEntries (isExcluded mt o.exclusions) base entries) mp = true := by
+  simp only [treeWFFor, Bool.and_eq_true] at hwf
+  exact ScanCompose.noFileParent_of_tree (ScanWalk.shape_of entries hwf.1) (ScanNames.names_of _ base mp entries hwf.2) root
+
+/-- C02, graph level, on directory trees: the scan raises (LookupError / IndexError) exactly when the
+    specification has no answer (a relative import reaching above the root); otherwise the import pairs of the scan
+    graph are exactly the rendered edges of the specification's `scanImports` — no exception. -/
+theorem scan_imports_exact_tree :
+    match scanImports root (toSEntries (isExcluded mt o.exclusions) base entries) mp with
+    | none => generateGraph mt base root mp entries o = .error .lookupError
+    | some is => ∃ g, generateGraph mt base root mp entries o = .ok g ∧
+        ∀ u v, (u, v) ∈ g.importPairs ↔ ∃ e ∈ is, u = render e.1 ∧ v = render e.2 :=
+  ScanCompose.scan_imports_tree_lemma hwf hmp hroot hxx hlim hext hst
+
+/-- the same under its other name: on a tree the no-collision hypothesis of `scan_imports_exact_nocollision` is a
+    consequence (`noFileParent_tree`) -/
+theorem scan_imports_exact_tree_nocollision :
+    match scanImports root (toSEntries (isExcluded mt o.exclusions) base entries) mp with
+    | none => generateGraph mt base root mp entries o = .error .lookupError
+    | some is => ∃ g, generateGraph mt base root mp entries o = .ok g ∧
+        ∀ u v, (u, v) ∈ g.importPairs ↔ ∃ e ∈ is, u = render e.1 ∧ v = render e.2 :=
+  ScanCompose.scan_imports_tree_lemma hwf hmp hroot hxx hlim hext hst
+
+/-- `scanImports = none ↔ generateGraph = .error _`, on directory trees -/
+theorem scan_error_iff_tree :
+    scanImports root (toSEntries (isExcluded mt o.exclusions) base entries) mp = none ↔
+      ∃ k, generateGraph mt base root mp entries o = .error k := by
+  have h := ScanCompose.scan_imports_tree_lemma (root := root) hwf hmp hroot hxx hlim hext hst
+  cases hs : scanImports root (toSEntries (isExcluded mt o.exclusions) base entries) mp with
+  | none => rw [hs] at h; simp [h]
+  | some is =>
+    rw [hs] at h
+    obtain ⟨g, hg, -⟩ := h
+    simp [hg]
+
+end tree
+
+/-- `r/a/` with `m.py` (`from . import k`, `from .. import a`, `import r.b, os`) and `k.py`, `r/b.py`
+    (`from .a import k, zz`), and an excluded directory `r/cache/` holding a dotted directory, a file importing above
+    the root and an `x.py` next to `x/` (nothing of which the scan sees) -/
+def exWalk : List Entry :=
+  [ { rel := ["a".toList], isDir := true },
+    { rel := ["a".toList, "m.py".toList], isDir := false,
+      stmts := [.impFrom none ["k".toList] 1, .impFrom none ["a".toList] 2, .imp ["r.b".toList, "os".toList]] },
+    { rel := ["a".toList, "k.py".toList], isDir := false },
+    { rel := ["b.py".toList], isDir := false, stmts := [.impFrom (some "a".toList) ["k".toList, "zz".toList] 1] },
+    { rel := ["cache".toList], isDir := true },
+    { rel := ["cache".toList, "v1.2".toList], isDir := true },
+    { rel := ["cache".toList, "x".toList], isDir := true },
+    { rel := ["cache".toList, "x.py".toList], isDir := false, stmts := [.impFrom none ["y".toList] 7] } ]
+
+def exWalkOpts : ScanOptions := { exclusions := .globs ["*cache".toList] }
+
+/-- non-vacuity of the `…_tree` theorems: the tree meets every hypothesis (and is not globally well-formed) -/
+example :
+    treeWFFor (isExcluded (fun _ _ => false) exWalkOpts.exclusions) "/x/r".toList [] exWalk = true ∧
+    treeWF exWalk = false ∧ mpOK exWalk [] = true ∧ compWF "r".toList = true ∧
+    exWalkOpts.excludeExternal = true ∧ exWalkOpts.levelLimit = none ∧ exWalkOpts.externalExclusions.isEmpty = true ∧
+    (∀ e ∈ exWalk, ∀ st ∈ e.stmts, stmtOK (toSStmt st) = true) := by decide
+
+set_option maxRecDepth 20000 in
+/-- … and there the specification's edges and the import pairs of the model's graph -/
+example :
+    scanImports "r".toList (toSEntries (isExcluded (fun _ _ => false) exWalkOpts.exclusions) "/x/r".toList exWalk) [] =
+      some [ (["r".toList, "a".toList, "m".toList], ["r".toList, "a".toList, "k".toList]),
+             (["r".toList, "a".toList, "m".toList], ["r".toList, "a".toList]),
+             (["r".toList, "a".toList, "m".toList], ["r".toList, "b".toList]),
+             (["r".toList, "b".toList], ["r".toList, "a".toList, "k".toList]),
+             (["r".toList, "b".toList], ["r".toList, "a".toList]) ] ∧
+    (generateGraph (fun _ _ => false) "/x/r".toList "r".toList [] exWalk exWalkOpts).toOption.map (·.importPairs) =
+      some [ ("r.a.m".toList, "r.a.k".toList), ("r.a.m".toList, "r.a".toList), ("r.a.m".toList, "r.b".toList),
+             ("r.b".toList, "r.a.k".toList), ("r.b".toList, "r.a".toList) ] := by decide
+
+/-- the sub-directory scan of `r/a` of the same tree (`module_path = a`) meets the hypotheses as well -/
+example :
+    treeWFFor (isExcluded (fun _ _ => false) exWalkOpts.exclusions) "/x/r".toList ["a".toList] exWalk = true ∧
+    mpOK exWalk ["a".toList] = true := by decide
 
 end Pta.C02
